@@ -471,6 +471,11 @@ class Escape:
             return
         if isinstance(st, ast.Assign):
             self.expr(st.value, st, ci, mod, fd, taint, stack, chain)
+            # `data, peer = sock.recvfrom(n)`: the second element is the (host, port) pair the operating system reports
+            for t in st.targets:
+                if isinstance(t, (ast.Tuple, ast.List)) and len(t.elts) == 2 and isinstance(t.elts[1], ast.Name) \
+                        and isinstance(st.value, ast.Call) and isinstance(st.value.func, ast.Attribute) and st.value.func.attr == "recvfrom":
+                    taint["$sockaddr:" + t.elts[1].id] = True
             if self.expr_tainted(st.value, taint, ci, mod):
                 for t in st.targets:
                     for a in ast.walk(t):
@@ -615,6 +620,43 @@ class Escape:
                 return True
             if (not pol) and taint.get("$notnone:" + text) and text.isidentifier():
                 return True
+        # (d) every parameter of the function is a socket address pair as recvfrom() reports it - (host string, port
+        # 0..65535): the function is folded on witness pairs (ports at the bounds and next to every integer constant
+        # the function compares with); a raise no witness reaches is a check that cannot fail for this call chain
+        ps_all = [a.arg for a in fd.args.args if a.arg not in ("self", "cls")]
+        ps_sa = [p_ for p_ in ps_all if taint.get("$sockaddr:" + p_)]
+        if ps_sa and not fd.args.vararg and not fd.args.kwarg:
+            try:
+                from consteval import Ev, Unknown as _Unk, Raised as _Rai, Opaque as _Opq, _FALL as _FALL_
+                consts = {x.value for x in ast.walk(fd) if isinstance(x, ast.Constant) and isinstance(x.value, int) and not isinstance(x.value, bool)}
+                ports = sorted({0, 1, 5700, 65535} | {c + d for c in consts for d in (-1, 0, 1) if 0 <= c + d <= 65535})
+                mod_ = ci.mod if ci is not None else getattr(fd, "_defmod", None)
+                reached = False
+                if mod_ is not None and len(ports) <= 64:
+                    for host in ("127.0.0.1", "localhost"):
+                        for port in ports:
+                            env_ = {p_: _Opq("argument " + p_) for p_ in ps_all}
+                            env_.update({p_: (host, port) for p_ in ps_sa})
+                            e_ = Ev(self.repo, mod_, env=env_, self_cls=ci)
+                            e_.ignore_calls = ("log.", "logging.")
+                            try:
+                                for top_ in fd.body:
+                                    try:
+                                        if e_.run_stmt(top_) is not _FALL_:
+                                            break
+                                    except _Unk:
+                                        # statements after the raise do not matter; one before it that does not fold
+                                        # leaves the question open
+                                        if getattr(top_, "lineno", 0) > getattr(st, "end_lineno", st.lineno):
+                                            break
+                                        raise
+                            except _Rai as r_:
+                                if r_.node is None or r_.node is st or getattr(r_.node, "lineno", None) == st.lineno:
+                                    reached = True
+                    if not reached:
+                        return True
+            except (_Unk, RecursionError, AnalysisError):
+                pass
         PY = {"str": {"str"}, "bytes": {"bytes"}}
         for text, pol in lits:
             m = _re.fullmatch(r"isinstance\((\w+), (.+)\)", text)
@@ -816,6 +858,12 @@ class Escape:
                     t2["$const:" + pn_[i_]] = a_.value
                 elif i_ < len(pn_) and isinstance(a_, ast.Name) and ("$const:" + a_.id) in taint:
                     t2["$const:" + pn_[i_]] = taint["$const:" + a_.id]
+            for i_, a_ in enumerate(as_):
+                if i_ < len(pn_) and isinstance(a_, ast.Name) and taint.get("$sockaddr:" + a_.id):
+                    t2["$sockaddr:" + pn_[i_]] = True
+            for kw_ in n.keywords:
+                if kw_.arg is not None and isinstance(kw_.value, ast.Name) and taint.get("$sockaddr:" + kw_.value.id):
+                    t2["$sockaddr:" + kw_.arg] = True
             # what the caller's guards say about plain-name arguments: truthy / not None
             try:
                 cl_ = guard_literals(self.cfg(fd), self.cfg(fd).node_of(n))
